@@ -17,6 +17,7 @@ RULE = ("for each diagram (standard line/bar plot, obsfcst, qq, scatter, cond, f
         "#inputs); non-trivial = >= 2 distinct ordinates read back per series.")
 RULE += " " + 'Diagrams qq-q (quantile curves), timeseries-ens (one curve per member), rank view with a score undefined for one input only; shards rotate the process time zone.'
 RULE += " " + 'Rounds 9-10: mapimpact markers; inverse reliability with several quantile levels and automatic bins.'
+RULE += " " + 'Rounds 11-12: discrimination with given bin edges; freq with forecast-only inputs.'
 ASSUMPTIONS = ["figures are checked through matplotlib's object model (Agg backend), not pixels",
                "decorations (confidence bands, reference lines, labels) are not part of the property"]
 REQUIRED_COUNTERS = ["figures", "series_compared", "points_compared", "bin_conservation_checks"]
